@@ -33,8 +33,10 @@ func runBubble(out *Outcome, fn func()) {
 	// the running goroutine at a point that depends on real time
 	runtime.GC() // no collection may be in flight when the run starts
 	gcOld := debug.SetGCPercent(-1)
-	// ... except as a safety valve: a run that produces gigabytes of garbage is collected
-	memOld := debug.SetMemoryLimit(1 << 30)
+	// ... except (a) at quiescent instants chosen by the driver (Sim.maybeGC: every other
+	// goroutine is durably blocked, so the collection cannot reorder anything), and (b)
+	// as a safety valve far above what (a) lets accumulate
+	memOld := debug.SetMemoryLimit(6 << 30)
 	defer func() {
 		debug.SetGCPercent(gcOld)
 		debug.SetMemoryLimit(memOld)
